@@ -5,6 +5,16 @@ package stringSplitter
 // sp_idx(s): number of elements handed out so far (the k-th call returns element k-1)
 //@ ghost sp_idx(rare/pkg/stringSplitter.Splitter) int
 
+// list view of a delimited string S: el_at(S, D, p) is the text of the element that starts at
+// offset p, nxt_at(S, D, p) the offset at which the element after it starts (-1 if it is the last):
+// exactly what Next() returns and leaves in `next` when called with next == p >= 0
+//@ smt
+//@ (define-fun el_at ((ea!s Str) (ea!d Str) (ea!p Int)) Str
+//@   (let ((ea!i (str_index (ssub ea!s ea!p (slen ea!s)) ea!d))) (ite (< ea!i 0) (ssub ea!s ea!p (slen ea!s)) (ssub ea!s ea!p (+ ea!p ea!i)))))
+//@ (define-fun nxt_at ((na!s Str) (na!d Str) (na!p Int)) Int
+//@   (let ((na!i (str_index (ssub na!s na!p (slen na!s)) na!d))) (ite (< na!i 0) (- 1) (+ na!p na!i (slen na!d)))))
+//@ end
+
 //@ func (*Splitter).Next
 //@   requires len(s.Delim) >= 1
 //@   requires s.next <= len(s.S)
@@ -15,6 +25,7 @@ package stringSplitter
 //@   ensures old(s.next) >= 0 && str_index(s.S[old(s.next):], s.Delim) < 0 ==> ret == s.S[old(s.next):] && s.next == -1
 //@   ensures old(s.next) >= 0 && str_index(s.S[old(s.next):], s.Delim) >= 0 ==> ret == s.S[old(s.next):old(s.next) + str_index(s.S[old(s.next):], s.Delim)]
 //@   ensures old(s.next) >= 0 && str_index(s.S[old(s.next):], s.Delim) >= 0 ==> s.next == old(s.next) + str_index(s.S[old(s.next):], s.Delim) + len(s.Delim)
+//@   ensures [list] old(s.next) >= 0 ==> ret == el_at(s.S, s.Delim, old(s.next)) && s.next == nxt_at(s.S, s.Delim, old(s.next))
 
 //@ func (*Splitter).NextOk
 //@   requires len(s.Delim) >= 1
